@@ -78,7 +78,9 @@ Definition iobs_eqb (a b : iobs) : bool :=
   (i1 =? i2) && (c1 =? c2) && (k1 =? k2) && (r1 =? r2) && (e1 =? e2) && option_eqb z3_eqb f1 f2
   && list_eqb z2_eqb es1 es2 && list_eqb z3_eqb s1 s2.
 
-Inductive qstepc := QStep (o : qop) (r : Z) (after : list iobs).
+Inductive qstepc :=
+| QStep (o : qop) (r : Z) (after : list iobs)
+| QStepNoObs (o : qop) (r : Z).   (* inside one end-block: the state is observed after the last election only *)
 
 Definition qcheck_step (acc : option (state isig)) (st : qstepc) : option (state isig) :=
   match acc, st with
@@ -86,6 +88,9 @@ Definition qcheck_step (acc : option (state isig)) (st : qstepc) : option (state
   | Some s, QStep o r after =>
       let '(s', r') := step isig iverify s (to_op o) in
       if (res_code r' =? r) && list_eqb iobs_eqb (map obs_item (st_items s')) after then Some s' else None
+  | Some s, QStepNoObs o r =>
+      let '(s', r') := step isig iverify s (to_op o) in
+      if res_code r' =? r then Some s' else None
   end.
 
 (** every stored signature verifies against the item's current bytes (the model-side twin of the oracle) *)
@@ -136,7 +141,9 @@ Definition subset4 (a b : list (Z * Z * Z * Z)) : bool := forallb (fun x => exis
 
 (** observed: batches (nonce, contract, estimate, relayer) in creation order; confirmations
     (nonce, contract, validator, signer) as a set *)
-Inductive bstepc := BStep (o : bop) (r : Z) (batches : list (Z * Z * Z * Z)) (confirms : list (Z * Z * Z * Z)).
+Inductive bstepc :=
+| BStep (o : bop) (r : Z) (batches : list (Z * Z * Z * Z)) (confirms : list (Z * Z * Z * Z))
+| BStepNoObs (o : bop) (r : Z).
 
 Definition bcheck_step (acc : option (cstate icsig)) (st : bstepc) : option (cstate icsig) :=
   match acc, st with
@@ -148,6 +155,9 @@ Definition bcheck_step (acc : option (cstate icsig)) (st : bstepc) : option (cst
       if (cres_code r' =? r) && list_eqb z4_eqb mb bs && subset4 mc cs && subset4 cs mc
          && (Z.of_nat (length mc) =? Z.of_nat (length cs))
       then Some s' else None
+  | Some s, BStepNoObs o r =>
+      let '(s', r') := cstep icsig icverify s (to_cop o) in
+      if cres_code r' =? r then Some s' else None
   end.
 
 Inductive case :=
